@@ -461,6 +461,9 @@ def sentinel_sweep(mode):
             out.append(G.case("sent-%s-%d" % (cls, k), cls, mode, ctor + ["leak v0"])); k += 1
             out.append(G.case("sent-%s-%d" % (cls, k), cls, mode, ctor + ["from_str 0", "from_str 3", "push v0 1"])); k += 1
             out.append(G.case("sent-%s-%d" % (cls, k), cls, mode, ctor + ["forget v0"])); k += 1
+            for sd in (["deserialize_in_place v0 N sq[]"], ["deserialize_in_place v0 0 sq[]"], ["deserialize_in_place v0 0 sq[1,2]"], ["deserialize_in_place v0 N sq[1,2,3]"],
+                       ["deserialize_in_place v0 5 sq[E]"], ["serialize v0"], ["deserialize d N sq[]", "compare v0 d"]):
+                out.append(G.case("sent-%s-%d" % (cls, k), cls, mode, ctor + sd + ["push v0 9"])); k += 1
             # iterators that yield nothing but advertise a non-zero upper bound
             for it in ("it[]h0-5", "it[N,4]h0-3", "it[]h0-N"):
                 out.append(G.case("sent-%s-%d" % (cls, k), cls, mode, ctor + ["extend v0 " + it, "splice v0 U U " + it + " sp", "drop sp", "extend v0 " + it, "push v0 9"])); k += 1
@@ -829,6 +832,23 @@ def align_cases(tier, seed, mode):
             for n in (0, 1, 4):
                 for h in hist:
                     out.append(G.case("al-%s-%d" % (cls, k), cls, mode, ["with_alignment v0 %d %d" % (n, a)] + h)); k += 1
+    # an unacceptable alignment is reported through Err whatever the capacity asked for (also an absurd one)
+    M = (1 << 64) - 1
+    for cls in ("w4", "b1", "s16"):
+        for a in (0, 1, 2, 3, 4, 6, 12, 24, 100, 4095, 4097):
+            for n in (M, M - 1, M // 2 + 1, 1 << 62, (1 << 61) + 1):
+                out.append(G.case("alx-%s-%d" % (cls, k), cls, mode, ["with_alignment v0 %d %d" % (n, a), "new v0", "push v0 1"])); k += 1
+    # a callback that panics must not cost the vector its storage class either: whatever unwinds, the alignment stays
+    if mode == "debug":
+        ops = [["retain v0 seqTFTFTF"], ["dedup_by v0 seqFTFTF"], ["dedup_by_key v0 kseq1,1,2,2,3,3"], ["drain_filter v0 seqTFTFTF it", "next it", "drop it"],
+               ["extend v0 it[7,8,9,10,11,12,13,14,15]"], ["resize_with v0 20 g[1]"], ["resize v0 20 5"], ["extend_from_slice v0 7 8 9 10 11 12 13 14 15"],
+               ["splice v0 I1 E3 it[7,8,9,10,11,12,13,14,15] it", "drop it"], ["clone v0 c"], ["extend_from_within v0 U U"], ["truncate v0 1"], ["clear v0"]]
+        for cls in ("w4", "s16"):
+            for a in (32, 4096):
+                for op in ops:
+                    for pk in (1, 2, 3, 5):
+                        out.append(G.case("alp-%s-%d" % (cls, k), cls, mode, ["with_alignment v0 6 %d" % a] + ["push v0 %d" % i for i in range(1, 7)] + op + ["push v0 77", "reserve v0 40", "push v0 78"],
+                                          ["!panic_at %d" % pk])); k += 1
     return out
 
 def growth_cases(mode):
@@ -945,7 +965,7 @@ PROPS = {
             "owned_oracles": ["O vec-mismatch", "O view-mismatch", "O ledger duplicate-id", "O ledger bitwise-copy", "panic-prefix", "macro-evals", "X signal"], "owned_diffs": ["result", "contents", "panic", "crash"],
             "partial_missing": ["refinement to Vec semantics proved for every history over push, pop, insert, remove, swap_remove, truncate, clear, retain (any predicate), reserve, reserve_exact, shrink_to, shrink_to_fit (C01_refines_vec_partial); separately proved value-for-value: extend_from_slice, resize, resize_with (any generator) (C01Loops), From<&[T]> (C01_from_slice_partial), clone, extend/collect, dedup*, Drain, IntoIter, DrainFilter (any predicate); append, split_off, drain_vec, mini_vec![a, b, c], splice (any replacement iterator), extend_from_within, remove_item (any equality), mini_vec![e; n], clone_from; C01_histories_partial composes them over EVERY history of 25 operation kinds incl. the three borrowing iterators created, stepped and dropped; From<&str>, Cow, the Borrow/AsRef/Deref/Index views are tied to Vec and to the model by the correspondence only (views oracle)"]},
     "C02": {"modules": ["MiniVecProof.Props.C10Provided", "MiniVecProof.Props.C02", "MiniVecProof.Props.C02Histories", "MiniVecProof.Props.C02All", "MiniVecProof.Props.C02Splice", "MiniVecProof.Props.C10", "MiniVecProof.Props.C10IntoIter", "MiniVecProof.Props.C10DrainFilter"],
-            "cases": lambda tier, seed: [(m, c + raw_natural_cases(m) + serde_error_cases(m)) for m, c in general(tier, seed, "C02")],
+            "cases": lambda tier, seed: [(m, c + raw_natural_cases(m) + serde_error_cases(m) + (serde_cases(tier, seed, m) + panic_sweep(tier, seed, m) if m == "debug" else [])) for m, c in general(tier, seed, "C02")],
             "owned_oracles": ["O ledger", "O view-mismatch", "X signal", "lost-on-panic"], "owned_diffs": ["own", "crash"],
             "partial_missing": ["exactly-once destruction and conservation proved for every completed history over the 12 operations of POp (incl. retain with any predicate) followed by Drop (C02_exactly_once_partial, C02_no_double_drop, C02_no_leak); for Drain and IntoIter dropped after any interleaving of steps: yielded front ++ destroyed ++ yielded back reversed = the selected range (specSteps_partition + C10_drain_partial / C10_into_iter_partial); DrainFilter: yielded ++ destroyed = accepted, vector = rejected (C10_drain_filter_partial); C02_histories_partial / C02_histories_into_iter_partial: EVERY completed history over the base operations, extend (any source), dedup / dedup_by / dedup_by_key (any relation), drain(range) with any steps then drop, drain_filter(pred) with any steps then drop, ended by dropping the vector or by into_iter() with any steps then drop: one destructor event per element of `dropped`, and dropped ++ everything yielded or returned is a rearrangement of the starting contents ++ everything handed in; C02_every_history_partial (Props/C02All, C02Splice): the same for EVERY completed history over all 25 operation kinds of HOp, by destructor events: the cloning operations (extend_from_slice, resize, extend_from_within: the clones are new elements handed to the vector), resize_with, remove_item and splice (create, any steps, drop: exactly the unyielded part of the range is destroyed; the temporary that collects the rest of the replacement is emptied before it is dropped) included; the multi-register operations and serde by correspondence + per-element ledger"]},
     "C03": {"modules": ["MiniVecProof.Props.C01", "MiniVecProof.Proofs.MemDrop", "MiniVecProof.Props.C09", "MiniVecProof.Props.C03World", "MiniVecProof.Props.C10World"],
@@ -974,7 +994,7 @@ PROPS = {
     "C09": {
         "modules": ["MiniVecProof.Props.C09"],
         "cases": lambda tier, seed: [("debug", corpus("debug", "C09") + huge_cases("debug")), ("release", corpus("release", "C09") + huge_cases("release"))],
-        "owned_oracles": ["O cap", "X ", "= hang", "reserve-contract"],
+        "owned_oracles": ["O cap", "X ", "= hang", "reserve-contract", "profile-divergence"],
         "owned_diffs": ["result", "panic", "alloc", "cap", "crash", "ub"],
         "partial_missing": ["lifting of the generated-code theorems through the hand model for resize / resize_with / mini_vec![x; n] / extend_from_slice is by correspondence only"],
     },
@@ -1014,7 +1034,7 @@ PROPS = {
 }
 
 import special as S
-for _p in ("C01", "C02", "C17"):
+for _p in ("C01", "C02", "C04", "C17"):
     PROPS[_p]["special"] = S.mutcb
 PROPS["C18"]["special"] = S.oom_unwind
 PROPS["C13"] = {"modules": ["MiniVecProof.Props.C13"], "special": S.c13,
@@ -1067,6 +1087,7 @@ def correspondence(pid, tier, seed, model_ok=True):
         except Exception as e:
             sv, special_cov = [{"signature": "special-tie-crashed", "concrete": False, "payload": {"what": "the rustc / native tie could not run: %r" % (e,)}}], {"evaluations": 0, "distinct_nontrivial": 0}
         violations += sv
+    results_by_profile = {}    # case text without its name / mode -> {mode: [results of the operations]}
     for mode, cases in (P["cases"](tier, seed) if "cases" in P else []):
         texts = {}
         for c in cases:
@@ -1077,6 +1098,9 @@ def correspondence(pid, tier, seed, model_ok=True):
         for name, (h, m) in res.items():
             evaluations += 1
             text = texts.get(name, "")
+            if h is not None and "profile-divergence" in P.get("owned_oracles", []):
+                key = "\n".join(l for l in text.split("\n") if not l.startswith("!case") and not l.startswith("!mode"))
+                results_by_profile.setdefault(key, {})[mode] = ([o.result for o in T.parse(h) if o.name], text)
             if h is None:
                 violations.append({"signature": "harness-missing-trace", "concrete": False, "payload": {"case": text, "mode": mode}})
                 continue
@@ -1142,6 +1166,16 @@ def correspondence(pid, tier, seed, model_ok=True):
                             violations.append({"signature": sig, "concrete": d11_from is not None and cat == "ub",
                                                "payload": {"what": "the model and the implementation disagree (the tie no longer checks)", "diff": d,
                                                            "case": text, "mode": mode, "impl_trace": R.strip_harness(h), "model_trace": m}})
+    # the same operations in the two profiles: which operations return, panic or abort must not depend on the profile
+    # (an impossible request "is refused by panicking ... identically in debug and optimized builds")
+    for key, by in results_by_profile.items():
+        if "debug" in by and "release" in by and by["debug"][0] != by["release"][0]:
+            rd, rr = by["debug"][0], by["release"][0]
+            j = next((i for i in range(min(len(rd), len(rr))) if rd[i] != rr[i]), min(len(rd), len(rr)))
+            cls = next((l.split()[1] for l in key.split("\n") if l.startswith("!cfg ")), "")
+            violations.append({"signature": "profile-divergence:%s:%s" % (cls, j), "concrete": True,
+                               "payload": {"what": "the same operations end differently in the debug and the optimized build",
+                                           "operation_index": j, "debug_results": rd, "release_results": rr, "case": by["release"][1]}})
     cov = {
         "evaluations": evaluations,
         "distinct_nontrivial": len(nontrivial),
